@@ -21,6 +21,7 @@ def dom_canaries(traces, rng, count=10):
         if len(out) >= count:
             break
         z = copy.deepcopy(tr)
+        z['canary_of'] = z['id']
         z['id'] = 'canary-%d' % n
         kind = n % 4
         n += 1
